@@ -394,8 +394,13 @@ PROPS = {
         "assumptions": [],
     },
     "C10": {
-        "modules": ["Vibrato.Model.Dict"],
-        "theorems": [],
+        "modules": ["Vibrato.Props.C10"],
+        "theorems": ["Vibrato.builders_total", "Vibrato.parsers_total", "Vibrato.LexCsv.parseCsv_ne_panic",
+                     "Vibrato.resetUser_total", "Vibrato.mapIds_total", "Vibrato.builders_establish_wf",
+                     "Vibrato.builders_preserve_wf", "Vibrato.builders_total_any_history", "Vibrato.accepted_ids_in_range",
+                     "Vibrato.wf_is_safe", "Vibrato.accepted_is_safe", "Vibrato.accepted_tokenizes",
+                     "Vibrato.no_silent_miscategorisation", "Vibrato.packing_roundtrip_param", "Vibrato.layout_fits",
+                     "Vibrato.astral_reads_entry_zero", "Vibrato.f9_accepted_dictionary_panics"],
         "streams": tok_streams("c10", 1500, 60000, c10_classifier()),
         "rule": "valid definition files from the structured generator + one corruption per case (16 kinds: empty file, byte "
                 "delete/insert/replace, cut, drop/duplicate field, swapped lines, out-of-range numbers, CRLF, BOM, missing final newline, "
